@@ -208,6 +208,28 @@ type zzInfoDoc struct {
 	ChainHash   string          `json:"chain_hash"`
 }
 
+type zzLegacyMeta struct {
+	BeaconID string `json:"beaconID"`
+}
+
+type zzLegacyDoc struct {
+	PublicKey   string          `json:"public_key"`
+	Period      uint64          `json:"period"`
+	GenesisTime int64           `json:"genesis_time"`
+	ChainHash   string          `json:"chain_hash"`
+	SchemeID    string          `json:"schemeID"`
+	GroupHash   common.HexBytes `json:"groupHash"`
+	Metadata    *zzLegacyMeta   `json:"metadata"`
+}
+
+func zzMustBin(p kyber.Point) []byte {
+	b, err := p.MarshalBinary()
+	if err != nil {
+		panic(err)
+	}
+	return b
+}
+
 // ZZ_C17_infoJSON: the JSON path of chain info (the real Info.MarshalJSON / Info.UnmarshalJSON and
 // common.HexBytes codecs; the JSON text layer itself is modelled structurally). Encoding then decoding gives
 // an equal info with the same hash, and a document whose embedded chain_hash does not match its (edited)
@@ -253,9 +275,30 @@ func ZZ_C17_infoJSON() {
 		zz.Assume(!common.CompareBeaconIDs(b.ID, a.ID))
 		doc.ID = b.ID
 	}
-	forged, err := json.Marshal(doc)
-	if err != nil {
-		panic(err)
+	var forged []byte
+	if zz.Bool("legacy_document_form") {
+		// the older relay form of the same document: schemeID / groupHash / metadata.beaconID instead of
+		// scheme / genesis_seed / beacon_id. It is still accepted on decode and carries the same commitments.
+		leg := zzLegacyDoc{PublicKey: doc.PublicKey, Period: doc.Period, GenesisTime: doc.GenesisTime, ChainHash: doc.ChainHash,
+			SchemeID: doc.Scheme, GroupHash: doc.GenesisSeed, Metadata: &zzLegacyMeta{BeaconID: doc.ID}}
+		good := zzLegacyDoc{PublicKey: fmt.Sprintf("%x", zzMustBin(a.PublicKey)), Period: uint64(a.Period.Seconds()), GenesisTime: a.GenesisTime, ChainHash: doc.ChainHash,
+			SchemeID: a.Scheme, GroupHash: a.GenesisSeed, Metadata: &zzLegacyMeta{BeaconID: a.ID}}
+		gd, err := json.Marshal(good)
+		if err != nil {
+			panic(err)
+		}
+		legacyBack := new(chain.Info)
+		zz.Assert("legacy_document_with_matching_hash_decodes", json.Unmarshal(gd, legacyBack) == nil && legacyBack.Equal(a))
+		forged, err = json.Marshal(leg)
+		if err != nil {
+			panic(err)
+		}
+	} else {
+		var err error
+		forged, err = json.Marshal(doc)
+		if err != nil {
+			panic(err)
+		}
 	}
 	target := new(chain.Info)
 	if zz.Bool("decode_into_a_used_object") {
